@@ -102,7 +102,15 @@ func c09(c *core.Ctx, r *core.Report) {
 			if _, isGo := e.Instr.(*ssa.Go); isGo {
 				ok = false
 			}
-			r.Check(ok && len(an.GuardsOfEvent(e)) == 0, key+"#first-eval-once", an.Pos(c, e.Instr), "the first evaluation runs unconditionally, once, before ticking starts", "the first evaluation is conditional or does not precede the tick loop")
+			// conditions of the closure's own frame are covered by the dominance just checked (the other branch never
+			// reaches the tick loop: triggering was abandoned before it started); inside a helper frame the evaluation
+			// must be unconditional
+			for _, fg := range an.GuardsOfEvent(e) {
+				if fg.Frame != nil && fg.Frame.Parent != nil {
+					ok = false
+				}
+			}
+			r.Check(ok, key+"#first-eval-once", an.Pos(c, e.Instr), "the first evaluation runs once on every path that reaches the tick loop, before ticking starts", "the first evaluation is conditional or does not precede the tick loop")
 		}
 		for _, e := range inLoop {
 			sel, idx := an.ArmOf(e.Instr)
@@ -278,7 +286,8 @@ func c09(c *core.Ctx, r *core.Report) {
 		}
 		var sels []an.Event
 		an.Flatten(tick, flatDepth, nil, func(e an.Event) {
-			if _, ok := e.Instr.(*ssa.Select); ok {
+			// the select of the tick loop; a wait before ticking starts (a start delay) is not part of the cadence
+			if _, ok := e.Instr.(*ssa.Select); ok && evInLoop(e) {
 				sels = append(sels, e)
 			}
 		})
